@@ -310,6 +310,7 @@ def run(chk):
     env_pairs(chk)
     registries(chk)
     guards(chk)
+    dtype_table(chk)
     normalised_copy(chk)
 
 
@@ -863,3 +864,58 @@ BENIGN = [
     ("additional optional key", "yastn/tn/fpeps/_doublePepsTensor.py", "        op = Tensor.from_dict(d=d['op'], config=config) if 'op' in d else None",
      "        op = Tensor.from_dict(d=d['op'], config=config) if 'op' in d else None\n        _note = d.get('note', None)"),
 ]
+
+
+def dtype_table(chk):
+    """Z8: the reader recognises every data type the backends can hold.  Tensor.from_dict (and the legacy branch) choose the dtype
+    handed to backend.to_tensor from the dtype of the stored data; a dtype that is not recognised falls back to the config's default and
+    the data is *cast* (complex64 -> float64 drops the imaginary part).  The recognised names are collected from the tests
+    `<name> in str(<data>.dtype)` (constants, or a loop variable over a literal tuple) or from `<data>.dtype.name`; they must
+    cover the keys of the backend's DTYPE table."""
+    prog = chk.prog
+    chk.rule("Z8", "Tensor.from_dict keeps the dtype of the stored data for every dtype of the backend's DTYPE table", floor=4)
+    bm = prog.module("yastn.backend.backend_np")
+    tab = [n.value for n in bm.tree.body if isinstance(n, ast.Assign) and A.text(n.targets[0]) == "DTYPE" and isinstance(n.value, ast.Dict)]
+    chk.require(tab, "backend_np.DTYPE table not found")
+    need = [k.value for k in tab[0].keys if isinstance(k, ast.Constant)]
+    chk.require(len(need) >= 4, "backend_np.DTYPE: literal keys not found")
+    T = prog.cls("yastn.tensor", "Tensor")
+    fd = T.methods["from_dict"]
+    par = A.enclosing_map(fd.node)
+    # the conversion of the (current-format) data: <backend>.to_tensor(d['data'], dtype=<name>, ...)
+    convs = [c for c in A.calls(fd.node) if A.callee_attr(c) == "to_tensor" and c.args and "'data'" in A.text(c.args[0])]
+    chk.require(convs, "Tensor.from_dict: conversion of d['data'] by backend.to_tensor not found")
+    c = convs[0]
+    dt = A.kwarg(c, "dtype")
+    chk.require(isinstance(dt, ast.Name), "Tensor.from_dict: dtype passed to to_tensor is not a local name")
+    recognised = set()
+    generic = False
+    for n in ast.walk(fd.node):
+        # dtype = <data>.dtype.name  : every dtype keeps its name
+        if isinstance(n, ast.Assign) and A.text(n.targets[0]) == dt.id and "'data'" in A.text(n.value) and A.text(n.value).replace(" ", "").find(".dtype.name") >= 0:
+            generic = True
+        if isinstance(n, ast.Compare) and len(n.ops) == 1 and isinstance(n.ops[0], ast.In) and "'data'" in A.text(n.comparators[0]) and ".dtype" in A.text(n.comparators[0]):
+            # what is assigned to the dtype variable under this test?
+            cur = n
+            while cur in par and not isinstance(cur, ast.If):
+                cur = par[cur]
+            if not isinstance(cur, ast.If):
+                continue
+            assigned = [b.value for b in cur.body if isinstance(b, ast.Assign) and A.text(b.targets[0]) == dt.id]
+            if not assigned:
+                continue
+            if isinstance(n.left, ast.Constant) and isinstance(assigned[0], ast.Constant) and assigned[0].value == n.left.value:
+                recognised.add(n.left.value)
+            elif isinstance(n.left, ast.Name) and isinstance(assigned[0], ast.Name) and assigned[0].id == n.left.id:
+                loop = cur
+                while loop in par and not (isinstance(loop, ast.For) and A.text(loop.target) == n.left.id):
+                    loop = par[loop]
+                if isinstance(loop, ast.For):
+                    vals = A.literal_seq(loop.iter, fd.node, T.module.tree)
+                    if vals:
+                        recognised.update(v for v in vals if isinstance(v, str))
+    for k in need:
+        ok = generic or k in recognised
+        chk.verdict("Z8", (fd, c), f"dtype '{k}' of stored data is kept", True if ok else False,
+                    f"Tensor.from_dict: stored data of dtype '{k}' is not recognised (recognised: {sorted(recognised)}); it is converted to the config's "
+                    f"default dtype — the restored tensor has another dtype and, for a complex type under a real default, loses its imaginary part")
